@@ -19,7 +19,7 @@ MAP_INDEX = re.compile(r'^<std::collections::(HashMap|BTreeMap)<.*> as std::ops:
 SEQ_INDEX = re.compile(r'(std::vec::Vec::<T, A>::insert$)|(as std::ops::Index(Mut)?<I>>::index(_mut)?$)|(impl std::ops::Index<I> for \[T; N\]>::index$)|(slice::index::<impl std::ops::Index<I> for \[T\]>::index$)')
 BORROW = re.compile(r'^std::cell::RefCell::<T>::(borrow|borrow_mut)$')
 CHRONO_PANICKY = re.compile(r'^(<chrono::NaiveDate as std::ops::(Add|Sub)<chrono::(Days|TimeDelta|Months)>>::(add|sub)|chrono::TimeDelta::(days|weeks|hours|minutes|seconds|milliseconds)|chrono::NaiveDate::(from_ymd|from_yo|succ|pred)|chrono::NaiveTime::from_hms)$')
-KNOWN_PANICKY = re.compile(r'(std::vec::Vec::<T, A>::(remove|swap_remove|split_off|drain)$)|(<impl \[T\]>::(split_at|split_at_mut|copy_from_slice|swap|chunks|chunks_exact|windows)$)|(::step_by$)|(<impl [iu](8|16|32|64|128|size)>::(pow|abs|div_euclid|rem_euclid|ilog2|ilog10|isqrt)$)|(std::sync::mpsc::.*::(send|recv)$)|(std::thread::)|(core::panicking::)|(std::rt::begin_panic)|(std::process::(exit|abort))|(::unwrap_failed$)|(::expect_failed$)|(std::time::)|(std::str::<impl str>::(split_at)$)|(alloc::string::String::(remove|insert|truncate|split_off)$)')
+KNOWN_PANICKY = re.compile(r'(std::vec::Vec::<T, A>::(remove|swap_remove|split_off|drain)$)|(<impl \[T\]>::(split_at|split_at_mut|copy_from_slice|swap|chunks|chunks_exact|windows)$)|(::step_by$)|(<impl [iu](8|16|32|64|128|size)>::(pow|abs|div_euclid|rem_euclid|ilog2|ilog10|isqrt)$)|(std::sync::mpsc::.*::(send|recv)$)|(std::thread::)|(core::panicking::)|(std::rt::begin_panic)|(std::process::(exit|abort))|(::unwrap_failed$)|(::expect_failed$)|(std::time::)|(str::<impl str>::(split_at|split_at_mut)$)|(core::str::traits::<impl std::ops::Index(Mut)?<.*> for str>::index(_mut)?$)|(<impl std::ops::Index(Mut)?<.*> for str>::index(_mut)?$)|(slice::index::<impl std::ops::Index(Mut)?<.*> for \[T\]>::index(_mut)?$)|(std::string::String::(remove|insert|insert_str|split_off|drain|replace_range)$)|(alloc::string::String::(remove|insert|truncate|split_off)$)')
 POINTER_ASSERT = ('MisalignedPointerDereference', 'NullPointerDereference')
 
 # R7.8 reviewed sites: (function path regex, site class) -> reason.  Shape-constant indexing in the ephemeris
@@ -312,7 +312,7 @@ def run(ctx, rep):
             n_loops += 1
             cls, detail = classify_loop(ctx, b, h, blocks)
             rep.ob('R7.4', f'{p}:loop', cls, detail, where=b.span)
-    rep.floor('loops', n_loops, 4)
+    rep.floor('loops', n_loops, 1)
     rep.extra['loops'] = n_loops
 
 
